@@ -33,6 +33,14 @@ func UniqueSite(f *ssa.Function) ssa.CallInstruction {
 func Deep(v ssa.Value) ssa.Value {
 	for i := 0; i < 8; i++ {
 		v = Resolve(v)
+		if fv, isFV := v.(*ssa.FreeVar); isFV {
+			// a captured variable stands for what the closure was created with
+			if b := bindingOf(fv); b != nil {
+				v = b
+				continue
+			}
+			return v
+		}
 		p, ok := v.(*ssa.Parameter)
 		if !ok {
 			return v
@@ -54,4 +62,36 @@ func Deep(v ssa.Value) ssa.Value {
 		v = args[idx]
 	}
 	return v
+}
+
+// bindingOf returns the value bound to a free variable where its closure is
+// created (an anonymous function has exactly one creation site), or nil.
+func bindingOf(fv *ssa.FreeVar) ssa.Value {
+	fn := fv.Parent()
+	if fn == nil || fn.Parent() == nil {
+		return nil
+	}
+	idx := -1
+	for k, q := range fn.FreeVars {
+		if q == fv {
+			idx = k
+		}
+	}
+	if idx < 0 {
+		return nil
+	}
+	var found ssa.Value
+	n := 0
+	for _, b := range fn.Parent().Blocks {
+		for _, in := range b.Instrs {
+			if mc, ok := in.(*ssa.MakeClosure); ok && mc.Fn == fn && idx < len(mc.Bindings) {
+				found = mc.Bindings[idx]
+				n++
+			}
+		}
+	}
+	if n != 1 {
+		return nil
+	}
+	return found
 }
